@@ -457,6 +457,27 @@ func c13Expr(c *core.Case) {
 	} else {
 		c.Count("expression-mode-errors-agreed")
 	}
+	// the same parsed node afterwards in literal-only mode, then in expression
+	// mode again: the mode of an earlier evaluation must not show
+	if lwant, lok := literalValue(tree); lok {
+		lgot, ld := e.Value(nil)
+		c.Evals(1)
+		if ld.HasErrors() {
+			c.Violation("literal-after-expression/evaluation-error", fmt.Sprintf("%q evaluated with a context and then in literal-only mode: %s", trunc(string(text), 300), diagStr(ld)), nil)
+			return
+		}
+		if !lgot.RawEquals(lwant) {
+			c.Violation("literal-after-expression/value-differs/"+valueDiffKind(lwant, lgot), fmt.Sprintf("%q evaluated with a context and then in literal-only mode\n expected %s\n got      %s", trunc(string(text), 300), valStr(lwant), valStr(lgot)), nil)
+			return
+		}
+		again, ad := e.Value(ctx)
+		c.Evals(1)
+		if ad.HasErrors() != vd.HasErrors() || (!vd.HasErrors() && !again.RawEquals(got)) {
+			c.Violation("expression-after-literal/value-differs", fmt.Sprintf("%q: expression-mode value %s changed to %s after a literal-only evaluation of the same node", trunc(string(text), 300), valStr(got), valStr(again)), nil)
+			return
+		}
+		c.Count("mode-order-independence-held")
+	}
 	c.NonTrivial(string(text))
 	if c.WantSample() {
 		c.Sample(map[string]any{"text": trunc(string(text), 200), "mode": "expression", "ok": ok})
